@@ -7,7 +7,7 @@ fail=0
 for d in seeded/$pat/; do
   [ -f "$d/meta.json" ] || continue
   name=$(basename "$d")
-  checks=$(python3 -c "import json;m=json.load(open('$d/meta.json'));print(' '.join(m.get('caught_by') or [m['property']]))")
+  checks=$(python3 -c "import json;m=json.load(open('$d/meta.json'));print(' '.join(x for x in ' '.join(m.get('caught_by') or [m['property']]).split() if len(x)==3 and x[0]=='C'))")
   out=$(mutants/run.sh "$d/patch.diff" $checks 2>&1); rc=$?
   echo "$name [$checks] -> $(echo "$out" | grep -o 'exit=[0-9]*' | tr '\n' ' ')"
   [ $rc -eq 0 ] || fail=1
